@@ -76,6 +76,7 @@ class NestedScheduler(BaseScheduler):
         """
         if isinstance(wiring, Wiring):
             wiring = InverseWiring.from_wiring(wiring)
+        wiring[ComponentID("external")]
         wiring[ComponentID("expose")].update(expose)
         return wiring
 
